@@ -4,6 +4,7 @@ import ast
 import itertools
 
 from . import rule
+from ..sympath import STALE
 from ..core import AnalysisError, src_of, Class, Func
 from ..report import Finding
 from ..minieval import MiniEval, Rec
@@ -73,7 +74,7 @@ def _cmp_atoms(conds):
     out = set()
     for src, pol in conds:
         try:
-            e = ast.parse(src.split('@')[0], mode='eval').body
+            e = ast.parse(src.split(STALE)[0], mode='eval').body
         except SyntaxError:
             continue
         if isinstance(e, ast.Compare) and len(e.ops) == 1:
@@ -107,7 +108,7 @@ def pin_wraptext(p, res):
                 continue
             n_ins += 1
             tx = sympath.unsnap(n.args[1], q.snaps)
-            cd = {sympath.unsnap(ast.parse(a.split('@')[0], mode='eval').body, q.snaps): pol for a, pol in conds}
+            cd = {sympath.unsnap(ast.parse(a.split(STALE)[0], mode='eval').body, q.snaps): pol for a, pol in conds}
             cd = {src_of(k): v for k, v in cd.items()}
             islist = cd.get('isinstance(%s, list)' % T)
             if islist is True:
